@@ -122,7 +122,7 @@ RULE = ('totals family: two random G specs merged into one model (disjoint cones
         'of/wrt (subsets, union, driver variables, repetition) over approximated units.  distinct = fingerprint(model features, solver stack, cell, plan shape); non-trivial = '
         'relevance answered "irrelevant" at least once in the enabled twin (something was really pruned) and all '
         'solvers reported convergence')
-MIN_JUDGED = {'quick': 250, 'thorough': 2500}
+MIN_JUDGED = {'quick': 400, 'thorough': 4000}
 REQUIRED_COUNTERS = ['obs:hist-errpath-twins', 'obs:hist-seq-twins', 'obs:errpath-fault-raised-in-both-twins',
                      'obs:errpath-fault-inside-per-seed-solve', 'obs:errpath-values-after-fault',
                      'obs:errpath-totals-after-fault', 'obs:errpath-fault-not-in-first-derivative-computation',
@@ -392,11 +392,7 @@ _FLOOR_REPORTS = [0, 0]     # floor-level reports not judged: [relevance-enabled
 class SeedFailureMonitor(FailureMonitor):
     """FailureMonitor that also records the derivative seed variable(s) active when a solver reported failure.
     mon.failures: (solver class, message, seeds, mixed, full seeds, in-coloring, irrelevant-only residual, hollow,
-                   approx-only)
-      approx-only (block solvers, irrelevant-only residual): True if every unconverged entry belongs to an output
-          inside a group with approx_totals
-      hollow = 'self' / 'below': the failing solver's group / a group below it is relevant for the active seeds as a
-          SYSTEM while none of its components is (see report_failure); False: no such group; None: unknown
+                   matrix-free-only)
       mixed = 'below'   : below the failing solver's system there is a group whose linear solver switches relevance
                           off (DirectSolver)
               'sibling' : no such group below, but elsewhere in the model there is one that takes part in the
@@ -407,6 +403,10 @@ class SeedFailureMonitor(FailureMonitor):
       irrelevant-only residual (block solvers only, else None): True if the part of the residual A x - rhs that lives
           in variables RELEVANT for the active seed is <= 1e-8 of the whole residual, i.e. what has not converged are
           only entries of variables relevance declared irrelevant.
+      hollow = 'self' / 'below': the failing solver's group / a group below it is relevant for the active seeds as a
+          SYSTEM while none of its components is (see report_failure); False: no such group; None: unknown
+      matrix-free-only (block solvers, rev, irrelevant-only residual): True if every unconverged entry is an output
+          read by a relevant matrix-free component
     mon.floor_failures: linear-solver reports whose last monitored residual is at round-off level (see FLOOR_REL)."""
 
     def __init__(self):
@@ -469,7 +469,7 @@ class SeedFailureMonitor(FailureMonitor):
             seeds = None
             mixed = None
             irr_only = None
-            apx_only = None
+            mf_only = None
             try:
                 sys_ = slf._system()
                 sv = sys_._problem_meta.get('seed_vars')
@@ -500,24 +500,26 @@ class SeedFailureMonitor(FailureMonitor):
                             rr += float(np.sum(np.abs(r[a:b]) ** 2))
                     tot = float(np.sum(np.abs(r) ** 2))
                     irr_only = bool(tot > 0.0 and rr <= 1e-16 * tot)
-                    if irr_only:
-                        # do all the unconverged (irrelevant) entries belong to outputs of groups that approximate
-                        # their semi-totals?  (such a group is one unit for the solvers: nothing zeroes the
-                        # derivative entries of the irrelevant outputs inside it)
+                    if irr_only and slf._mode == 'rev':
+                        # is every unconverged (irrelevant) entry an output that a RELEVANT MATRIX-FREE component
+                        # reads?  (its compute_jacvec_product / apply_linear fills d_inputs of that input - it cannot
+                        # know that the input is irrelevant for the active seeds - and the reverse transfer carries
+                        # the value into the right-hand side of a solver that skips the output's component)
                         root = sys_._problem_meta['model_ref']()
-                        apx_only = True
+                        readers = {}
+                        for inp, src in root._conn_global_abs_in2out.items():
+                            readers.setdefault(src, []).append(inp.rpartition('.')[0])
+                        mf_only = True
                         for n in vec._views:
                             a, b = vec.get_range(n)
                             if float(np.sum(np.abs(r[a:b]) ** 2)) > 1e-16 * tot:
-                                path = n.rpartition('.')[0]
-                                inapx = False
-                                while path:
-                                    path = path.rpartition('.')[0]
-                                    g = root._get_subsystem(path) if path else None
-                                    if g is not None and getattr(g, '_owns_approx_jac', False):
-                                        inapx = True
+                                ok = False
+                                for cpath in readers.get(n, ()):
+                                    comp = root._get_subsystem(cpath)
+                                    if comp is not None and comp.matrix_free and relsys(rel, cpath):
+                                        ok = True
                                         break
-                                apx_only = apx_only and inapx
+                                mf_only = mf_only and ok
             except Exception:
                 if os.environ.get('OMV_DEBUG'):
                     import traceback
@@ -557,7 +559,7 @@ class SeedFailureMonitor(FailureMonitor):
                     import traceback
                     traceback.print_exc()
             last = _true_residual(slf)
-            rec = (type(slf).__name__, msg, seeds, mixed, full, incol, irr_only, hollow, apx_only)
+            rec = (type(slf).__name__, msg, seeds, mixed, full, incol, irr_only, hollow, mf_only)
             if isinstance(slf, LinearSolver) and last is not None and \
                     (last[1] <= FLOOR_REL or last[0] <= FLOOR_ABS):
                 mon.floor_failures.append(rec + (last,))
@@ -598,10 +600,11 @@ def _fail_class(failures, src2spec, dep):
                               the active seeds as a system although none of its components is: its linear solver is
                               called with a right-hand side (put there by a matrix-free component that fills d_inputs
                               of an input which is irrelevant for the seed pair) that nothing in the group works on
-      live-seed:irrelevant-output-of-approx-group   ... otherwise, and (block solvers) what did not converge are only
-                              entries of outputs that are irrelevant for the active seeds and sit inside a RELEVANT
-                              group with approx_totals (one unit for the solvers; a matrix-free component outside put a
-                              derivative value there through the reverse transfer)
+      live-seed:matrix-free-into-irrelevant-output   ... otherwise, and (block solvers, rev) what did not converge are
+                              only entries of outputs that are irrelevant for the active seeds and are read by a
+                              relevant matrix-free component (which fills d_inputs of that input; the reverse transfer
+                              carries the value into a relevant group - run-once, approximated, ... - next to the
+                              skipped component)
       live-seed:uniform-stack neither."""
     def dead(f):
         seeds, full = f[2], f[4]
@@ -633,7 +636,7 @@ def _fail_class(failures, src2spec, dep):
     if all(len(f) > 7 and f[7] for f in live):
         return 'live-seed:hollow-group'
     if all(len(f) > 8 and f[8] for f in live):
-        return 'live-seed:irrelevant-output-of-approx-group'
+        return 'live-seed:matrix-free-into-irrelevant-output'
     return 'live-seed:uniform-stack'
 
 
